@@ -22,6 +22,8 @@ Inductive c11case :=
 | CBigR (msize cs : N) (a c lenp : N) (off base : Z) (fa fc flen : N) (tape : list (N * option cerr))
         (n : N) (err : option cerr) (calls : list (N * N * Z)) (buf_after : list N)
 (* the payload size the client uses after negotiating msize *)
+| CFilled (ok : bool)      (* reads in flight together on one connection after a zero-byte end-of-file read: each ReadAt
+                             delivered its own file's bytes (compared by the harness, vhread_probe_test.go) *)
 | CPayload (msize cs : N)
 (* client.ReadAt *)
 | CRead (msize cs : N) (p0 : list N) (off : Z) (base : Z) (file0 : list N) (tape : list rans)
@@ -71,6 +73,7 @@ Definition agrees (c : c11case) : bool :=
       | CPanic => panicked
       | CFuel => false
       end
+  | CFilled _ => true
   | CPayload msize cs => (cs =? payload_of msize)%N
   | CBigW msize cs _ _ lenp off tape _ n err calls _ _
   | CBigR msize cs _ _ lenp off _ _ _ _ tape n err calls _ =>
@@ -145,6 +148,7 @@ Definition property_holds (c : c11case) : bool :=
       (let x := (n + stored_by_failure calls)%nat in
        list_eqb N.eqb (firstn x (skipn (Z.to_nat (off - wstart)) window)) (firstn x p)) &&
       (if all_full calls then (n =? length p)%nat && oerr_eqb err None else true)
+  | CFilled ok => ok
   | CPayload msize cs =>
       (* every chunk within the payload limit: a full Twrite (23 bytes of header) and a full Rread (11) fit msize *)
       (1 <=? cs)%N && (cs + 23 <=? msize)%N
